@@ -373,10 +373,96 @@ pub fn write_replay(prop: &PropDef, r: &RunResult, dir: &Path, minimised: bool) 
 
 /// ddmin over the operation list, then configuration simplification; a candidate is kept only
 /// if the same violation class persists. Bounded by wall-clock.
+/// Minimisation of a concurrent run: drop whole threads, then halve action lists, re-deriving
+/// the schedule from the same scheduler seed each time (the recorded decision list only fits the
+/// original workload); a candidate is kept if the same violation class recurs. The final replay
+/// file carries the decision list of the minimised run.
+fn minimise_conc(prop: &PropDef, r: &RunResult, dir: &Path, spec0: RunSpec) -> PathBuf {
+    let start = std::time::Instant::now();
+    let budget = 90.0;
+    let class = r.class.clone();
+    let mut best: crate::conc::ConcSpec = match serde_json::from_value(spec0.extra.clone()) {
+        Ok(c) => c,
+        Err(_) => return write_replay(prop, r, dir, false),
+    };
+    let mut best_res = r.clone();
+    let acts0: usize = best.threads.iter().map(|t| t.1.len()).sum();
+    let mut trials = 0u32;
+    let mut attempt = |cand: &crate::conc::ConcSpec| -> Option<RunResult> {
+        let mut c = cand.clone();
+        c.decisions.clear();
+        let mut s = spec0.clone();
+        s.extra = serde_json::to_value(&c).ok()?;
+        let res = crate::pool::run_spec_in_child(prop, &s, 120.0);
+        if res.outcome == "violation" && res.class == class {
+            Some(res)
+        } else {
+            None
+        }
+    };
+    // 1. whole threads (never the writer)
+    let mut t = best.threads.len();
+    while t > 0 && start.elapsed().as_secs_f64() < budget {
+        t -= 1;
+        if best.threads[t].0 == "writer" || best.threads[t].1.is_empty() {
+            continue;
+        }
+        let mut cand = best.clone();
+        cand.threads[t].1.clear();
+        trials += 1;
+        if let Some(res) = attempt(&cand) {
+            best = cand;
+            best_res = res;
+        }
+    }
+    // 2. halves / quarters of every action list
+    for t in 0..best.threads.len() {
+        let mut chunk = best.threads[t].1.len() / 2;
+        while chunk >= 1 && start.elapsed().as_secs_f64() < budget {
+            let mut i = 0;
+            while i < best.threads[t].1.len() && start.elapsed().as_secs_f64() < budget {
+                let end = (i + chunk).min(best.threads[t].1.len());
+                let mut cand = best.clone();
+                cand.threads[t].1.drain(i..end);
+                trials += 1;
+                if let Some(res) = attempt(&cand) {
+                    best = cand;
+                    best_res = res;
+                } else {
+                    i += chunk;
+                }
+            }
+            chunk /= 2;
+        }
+    }
+    // the result of the last accepted attempt carries the spec with its decision list
+    let final_spec = best_res.spec.clone().unwrap_or(spec0);
+    let acts1: usize = best.threads.iter().map(|t| t.1.len()).sum();
+    let path = replay_path(prop, r.seed, dir);
+    let _ = std::fs::create_dir_all(path.parent().unwrap());
+    let rf = ReplayFile {
+        spec: final_spec,
+        violation_class: class,
+        message: best_res.msg.clone(),
+        event_digest: best_res.digest,
+        minimised: true,
+        original_ops: acts0,
+    };
+    let _ = std::fs::write(&path, serde_json::to_string_pretty(&rf).unwrap());
+    eprintln!(
+        "minimised concurrent workload {acts0} -> {acts1} actions in {trials} trials ({:.1}s)",
+        start.elapsed().as_secs_f64()
+    );
+    path
+}
+
 pub fn minimise_and_write(prop: &PropDef, r: &RunResult, dir: &Path) -> PathBuf {
     let Some(spec0) = r.spec.clone() else {
         return write_replay(prop, r, dir, false);
     };
+    if spec0.extra.get("engine").and_then(|e| e.as_str()) == Some("conc") {
+        return minimise_conc(prop, r, dir, spec0);
+    }
     let start = std::time::Instant::now();
     let budget = 60.0;
     let class = r.class.clone();
